@@ -419,7 +419,7 @@ fn strategy(_tier: Tier) -> BoxedStrategy<Case> {
         .boxed()
 }
 
-pub fn property() -> Property {
+pub fn property(_tier: Tier) -> Property {
     Property {
         id: "C07",
         level: "exploration",
